@@ -283,6 +283,10 @@ class Gen:
                     m.update(ret=Prim("int"), expr=r.choice(["Undefined", "5"]), undefined=True)
                 else:
                     m.update(ret=Coll("list", Prim("str")), expr="['x', 'y']")
+                if self.recursion and r.random() < 0.15:
+                    # a method returning the class itself: the type is recursive only through its serialized method
+                    m.update(ret=r.choice([Coll("list", Ref(name)), opt(Ref(name))]), expr=None, undefined=False)
+                    m["expr"] = "[]" if isinstance(m["ret"], Coll) else "None"
                 if r.random() < 0.3:
                     m["alias"] = m["name"] + "Alias"
                 o.methods.append(m)
